@@ -138,8 +138,11 @@ int sqfs_writer_finish(sqfs_writer_t *sqfs, const sqfs_writer_cfg_t *cfg)
 						sqfs->fs.root->inode_num,
 						sqfs->fs.root->inode_ref,
 						&sqfs->super);
-		if (ret)
+		if (ret) {
+			sqfs_perror(cfg->filename, "writing export table",
+				    ret);
 			return -1;
+		}
 	}
 
 	if (!cfg->quiet)
